@@ -10,6 +10,7 @@ mod generator;
 mod hist;
 mod hooks;
 mod json;
+mod mem;
 mod model;
 mod ops;
 mod oracle;
@@ -224,6 +225,8 @@ fn main() {
     let rep = match args.cmd.as_str() {
         "seq" => seq::run(&args),
         "sched" => schedrun::run(&args),
+        "free" => mem::run_free(&args),
+        "mem" => mem::run_mem(&args),
         "init" => special::run_init(&args),
         "single" => special::run_single(&args),
         "handoff" => special::run_handoff(&args),
